@@ -36,7 +36,7 @@ def table : List Row := [
   ⟨"quantum", "measure_array", [.other], "array[bool, N]", .opaque⟩,
   ⟨"quantum", "discard_array", [.other], "None", .opaque⟩,
   ⟨"quantum", "ch", [.qubit, .qubit], "None", .body [⟨"quantum", "ry", [(.p 1), (.divN (.neg .pi) 4)]⟩, ⟨"quantum", "cz", [(.p 0), (.p 1)]⟩, ⟨"quantum", "ry", [(.p 1), (.divN .pi 4)]⟩]⟩,
-  ⟨"qsystem", "phased_x", [.qubit, .angle, .angle], "None", .body [⟨"qsystem", "_phased_x", [(.p 0), (.toFloat (.p 2)), (.toFloat (.p 1))]⟩]⟩,
+  ⟨"qsystem", "phased_x", [.qubit, .angle, .angle], "None", .body [⟨"qsystem", "_phased_x", [(.p 0), (.toFloat (.p 1)), (.toFloat (.p 2))]⟩]⟩,
   ⟨"qsystem", "zz_max", [.qubit, .qubit], "None", .body [⟨"qsystem", "zz_phase", [(.p 0), (.p 1), (.divN .pi 2)]⟩]⟩,
   ⟨"qsystem", "zz_phase", [.qubit, .qubit, .angle], "None", .body [⟨"qsystem", "_zz_phase", [(.p 0), (.p 1), (.toFloat (.p 2))]⟩]⟩,
   ⟨"qsystem", "rz", [.qubit, .angle], "None", .body [⟨"qsystem", "_rz", [(.p 0), (.toFloat (.p 1))]⟩]⟩,
